@@ -102,6 +102,27 @@ def worker(cfg, tier):
         obs.append(cg.prove_with_replay("TrainableDist: sample == mean == quantile(q) == min + alpha*(max-min) in [min, max]; sampling/reset leave it unchanged",
                                         cfg, it, tr, flat, [a >= 0, a <= 1], g, "trainable-dist", "TrainableDist sample/mean/quantile disagree or leave [min, max]", grid=(0, 1)))
 
+        # the route by which a requested (learned) delay becomes alpha: BaseNode.init_inputs does dist.replace(alpha=dist.get_alpha(delay)); the requested
+        # delay is an unconstrained parameter (an optimiser may push it below min or above max), the sampled delay must still lie in [min, max]
+        it2 = jx.Interp()
+
+        def via_alpha(d, delay):
+            d2 = d.replace(alpha=d.get_alpha(delay))
+            return d2.sample(2)[1], d2.mean(), d2.quantile(0.99), d2.alpha
+
+        tr2 = jx.Traced(via_alpha, dd, jnp.float32(0.01))
+        flat2 = tr2.sym_inputs(it2, "u")
+
+        def g2(i, o):
+            req = i[1].item()
+            s, mu, q, a = o
+            want = z3.If(req < lo, lo, z3.If(req > hi, hi, req))
+            return z3.And(a.item() >= 0, a.item() <= 1, *[z3.And(x >= lo, x <= hi, x >= 0, x == want) for x in list(s.flat()) + [mu.item(), q.item()]])
+
+        obs.append(cg.prove_with_replay("TrainableDist: for ANY requested delay, replace(alpha=get_alpha(delay)) samples clip(delay, min, max): never negative, never outside [min, max]",
+                                        cfg, it2, tr2, flat2, [], g2, "trainable-get-alpha", "a requested delay outside [min, max] yields sampled delays outside [min, max] (negative below min)",
+                                        grid=(-1, 1)))
+
     elif which == "deterministic_quantile":
         it = jx.Interp()
         tr = jx.Traced(lambda loc, q: (StaticDist.create(distrax.Deterministic(loc)).quantile(q), StaticDist.create(distrax.Deterministic(loc)).mean()), jnp.float32(0.1), jnp.zeros((2,), jnp.float32))
@@ -297,7 +318,7 @@ def run(rep):
 
     rep.technique = ("jaxprs of StaticDist.sample/reset/quantile and TrainableDist.sample/mean/quantile interpreted over z3 terms; the wrapped distrax "
                      "distribution is an oracle (samples = uninterpreted function of the seed), PRNG split as uninterpreted function; z3 decides the clauses")
-    rep.encode(base.StaticDist.sample, base.StaticDist.reset, base.StaticDist.quantile, base.TrainableDist.sample, base.TrainableDist.mean, base.TrainableDist.quantile)
+    rep.encode(base.StaticDist.sample, base.StaticDist.reset, base.StaticDist.quantile, base.TrainableDist.sample, base.TrainableDist.mean, base.TrainableDist.quantile, base.TrainableDist.get_alpha)
     cfgs = configs(rep.tier)
     rep.configs = cfgs
     rep.bounds = dict(sample_shapes=[1, 3])
